@@ -42,6 +42,9 @@ def _forall_full(self, k):
     g = self.guard(k)
     eng = _V.ENGINE
     if eng is not None and isinstance(g, _V.SBool):
+        if getattr(eng, "_in_inst", 0) > 0 and _V.known(_V.Not(g), 40):
+            # instantiation of an assumed fact at an index outside its guard: nothing to learn (skipping is sound)
+            return True
         mark = len(eng.pc)
         eng.pc.append(g.t)
         try:
@@ -76,8 +79,11 @@ class RaiseSpec:
 
 
 class LoopSpec:
-    def __init__(self, name, inv, variant=None, unfold_init=None, unfold_step=None, target=None, rebind=(), shapes=None, cells=None, case_split=(), ghosts=(), asserts=None):
+    def __init__(self, name, inv, variant=None, unfold_init=None, unfold_step=None, target=None, rebind=(), shapes=None, cells=None, case_split=(), ghosts=(), asserts=None, ghost_step=None):
         self.name = name
+        # ghost code run at the end of every iteration (before the invariant is re-established): may only assign
+        # engine ghost variables (eng.ghost[...]) listed in `ghosts`; it cannot influence the real execution
+        self.ghost_step = ghost_step
         self.inv = inv
         self.variant = variant
         self._unfold_init = unfold_init
@@ -326,6 +332,23 @@ class Ctx(HeapSnap):
         if len(segs) != len(names):
             raise EngineError("anchor lost: %s appends %d segments to the stream, the contract names %d (%s)" % (eng.contract.target, len(segs), len(names), ",".join(names)))
         return [V.to_seq(sg, "byte", "bytes") if not isinstance(sg, SSeq) else sg for sg in segs]
+
+    def ghost_seq(self, name, elem="int", concrete=None, default=None):
+        """a ghost sequence maintained by ghost code of the function under contract (LoopSpec.ghost_step).
+        prove mode : its current value (eng.ghost[name]); `default` when the path never ran the ghost code;
+        assume mode: a fresh sequence (existentially quantified ghost result of the callee);
+        concrete   : computed from the real outcome by `concrete()` (see ConcreteCtx)."""
+        eng = self.eng
+        if eng.ctx_mode == "assume":
+            key = ("gseq", name)
+            if key not in eng._ghost_cache:
+                eng._ghost_cache[key] = eng.fresh_seq("ghost_" + name, elem, "list")
+            return eng._ghost_cache[key]
+        if name not in eng.ghost:
+            if default is not None:
+                return V.to_seq(default, elem, "list") if not isinstance(default, SSeq) else default
+            raise EngineError("anchor lost: ghost sequence %s was never assigned on this path" % name)
+        return eng.ghost[name]
 
     def seq_of(self, name, fn, n, elem="bool"):
         """the sequence [fn(0), ..., fn(n-1)] as a spec-level value (fresh sequence + element facts)"""
